@@ -27,10 +27,25 @@ Cfg_h4 == { Cfg(1, 0, << <<E(0)>>, <<E(1)>>, <<G>> >>) }
 Cfg_wm == { Cfg(bs, 0, << <<E(1)>>, <<E(0), O("x", 0)>>, <<S, U(0)>> >>) : bs \in {1, 2} }
      \cup { Cfg(1, 0, << <<E(0)>>, <<E(1)>>, <<E(1)>> >>) }
 
-Next == \/ \E t \in Thr : Step(t, MOf)
-        \/ Destroy(MOf)
-        \/ (now < MaxNow /\ TimeMatters /\ Tick(1))
-        \/ (Dead /\ UNCHANGED vars)
+\* Reduction.  Allocating / filling / dropping private tables and blocks (s_new, s_blk, s_del, s_deltab) and
+\* entering an operation (Call) touch nothing another thread can observe before the next atomic operation
+\* of the same thread, so they commute with every step of the other threads: it is enough to explore the
+\* interleavings in which such a step is taken as soon as it is enabled (lowest thread first).
+LocalPc(t) == \/ pc[t] \in {"s_new", "s_blk", "s_del", "s_deltab"}
+              \/ (pc[t] = "idle" /\ L[t].opi <= Len(cfg.prog[t]))
+LocalThr == {t \in Thr : LocalPc(t)}
+Next == IF LocalThr # {}
+        THEN Step(CHOOSE t \in LocalThr : \A u \in LocalThr : t <= u, MOf)
+        ELSE \/ \E t \in Thr : Step(t, MOf)
+             \/ Destroy(MOf)
+             \/ (now < MaxNow /\ TimeMatters /\ Tick(1))
+             \/ (Dead /\ UNCHANGED vars)
+\* the same without the reduction (used to cross-check it on the smallest family)
+NextFull == \/ \E t \in Thr : Step(t, MOf)
+            \/ Destroy(MOf)
+            \/ (now < MaxNow /\ Tick(1))
+            \/ (Dead /\ UNCHANGED vars)
+SpecFull == Init /\ [][NextFull]_vars
 Spec == Init /\ [][Next]_vars
 
 \* hide the ghost event from the state identity
